@@ -1,0 +1,9 @@
+//go:build !verif
+
+// Package verifhook provides named scheduling points for the external
+// verification harness. Without the build tag "verif" every point is an
+// empty function.
+package verifhook
+
+// Point marks a scheduling point. It does nothing unless built with -tags verif.
+func Point(name, key string) {}
